@@ -6,6 +6,7 @@ oracle : the composition the generator spelled (ground truth) / direct statement
 """
 from __future__ import annotations
 
+import json
 import keyword
 import os
 import re
@@ -13,7 +14,7 @@ import sys
 from pathlib import Path
 
 from . import cparse
-from .common import Check, lean_driver, quiet_naunet, silenced, tier_and_seed
+from .common import Check, ROOT, lean_driver, quiet_naunet, silenced, tier_and_seed
 
 quiet_naunet()
 
@@ -281,13 +282,19 @@ NETS = {
     "upper-ions": (["S", "S+", "S++", "SI", "SI+", "SIO", "H", "HE", "HE+", "E-", "C", "C+", "CL", "CL+", "MG", "MG+", "HS", "HS+", "CS"], "upper"),
     "excited": (["H2", "H2*", "H", "c-C3H2", "l-C3H", "C", "e-"], "default"),     # F9
     "grain-two-spellings": (["GRAIN", "GRAIN0", "GRAIN-", "H+", "H", "e-"], "default"),  # F10
+    # a reduced depletion model: every molecule only freezes out and desorbs, so a gas species and its ice are connected to exactly
+    # the same species - the connectivity key of the ordering ties and only the names decide
+    "ice-pairs": (["H2O", "#H2O", "CO", "#CO", "CH4", "#CH4", "NH3", "#NH3", "N2", "#N2"], "default"),
 }
+EXPLICIT = {"ice-pairs": [([x], ["#" + x], 100) for x in ("H2O", "CO", "CH4", "NH3", "N2")]
+            + [(["#" + x], [x], 100) for x in ("H2O", "CO", "CH4", "NH3", "N2")]}
 
 
 RENDER_REFUSED_OK = set()      # fixed networks whose rendering is refused on the unchanged tree (filled in below, with the reason)
 
 
-def build_net(spec_names, cfgname, rng):
+def build_net(spec_names, cfgname, rng, explicit=None, desc=None):
+    """`desc` (a dict) receives what a worker process needs to rebuild the same network"""
     from naunet.network import Network
     from naunet.reactions import Reaction
     from naunet.reactiontype import ReactionType as RT
@@ -301,14 +308,20 @@ def build_net(spec_names, cfgname, rng):
     # some species take part in no reaction and enter as required species - at construction, or assigned later, possibly
     # after the species list has already been looked at
     held, mode = [], "none"
-    if len(names) >= 4 and rng.random() < 0.5:
+    if len(names) >= 4 and rng.random() < 0.5 and not explicit:
         k = rng.randint(1, 2)
         names, held = names[:-k], names[-k:]
         mode = rng.choice(["ctor", "late", "late-after-query"])
-    rs = []
+    raw = []
     for i in range(len(names)):
         a, b = names[i], names[(i + 1) % len(names)]
-        rs.append(Reaction([a, rng.choice(names)], [b], alpha=1e-10, reaction_type=RT.GAS_TWOBODY, idxfromfile=i + 1))
+        raw.append(([a, rng.choice(names)], [b], int(RT.GAS_TWOBODY)))
+    if explicit:
+        raw = [(list(re_), list(pr_), t) for re_, pr_, t in explicit]
+    rs = [Reaction(list(re_), list(pr_), alpha=1e-10, reaction_type=RT(t), idxfromfile=i + 1) for i, (re_, pr_, t) in enumerate(raw)]
+    if desc is not None:
+        desc.update({"cfg": cfgname, "required": list(held), "binding": dict(chemistrydata.user_binding_energy),
+                     "reactions": [[re_, pr_, t] for re_, pr_, t in raw]})
     with silenced():
         net = Network(rs, elements=list(cfg["elements"]), pseudo_elements=list(cfg["pseudo"]),
                       required_species=list(held) if mode == "ctor" else None)
@@ -339,13 +352,17 @@ def run_c09(argv):
         if rng.random() < 0.7:
             pool.append(rng.choice(["e-", "E", "E-"] if cfgname != "upper" else ["E", "E-"]))
         nets[f"random{k}"] = (sorted(set(pool)), cfgname)
+    descs = {}
     for label, (names, cfgname) in nets.items():
         try:
-            net = build_net(names, cfgname, rng)
+            descs[label] = {}
+            net = build_net(names, cfgname, rng, explicit=EXPLICIT.get(label), desc=descs[label])
         except Exception as e:
+            descs.pop(label, None)
             chk.violation({"kind": "build-raised", "net": label}, f"building network {label} raised {e}")
             continue
         species = net.species
+        descs[label]["order"] = [s.name for s in species]
         distinct = []
         for s in species:
             if not any(s == d for d in distinct):
@@ -444,8 +461,44 @@ def run_c09(argv):
             summary_check(chk, label, names, cfgname, ref_alias)
         if label in ("ions", "upper"):
             chk.sample({"network": label, "macros": ref_alias})
+    cross_process_order(chk, descs, tier)
     model_c09(chk, nets)
     return chk.finish()
+
+
+def cross_process_order(chk, descs, tier):
+    """`naunet render`, `naunet render --patch enzo` and any later re-render are separate interpreter processes: the index macros
+    of one and the per-species table of the other agree only if `Network.species` does not depend on the process (string hashes
+    are salted per process).  Every network is rebuilt in worker processes with different PYTHONHASHSEED values."""
+    import subprocess
+    from concurrent.futures import ThreadPoolExecutor
+    labels = [l for l in descs if "reactions" in descs[l]]
+    if not labels:
+        return
+    inp = "".join(json.dumps({k: descs[l][k] for k in ("cfg", "required", "binding", "reactions")}) + "\n" for l in labels)
+    seeds = ["1", "2", "3"] if tier == "quick" else [str(k) for k in range(1, 13)]
+
+    def one(hs):
+        r = subprocess.run([sys.executable, str(ROOT / "harness" / "c09_worker.py")], input=inp, capture_output=True, text=True,
+                           env={**os.environ, "PYTHONHASHSEED": hs}, timeout=900)
+        return hs, r
+
+    with ThreadPoolExecutor(len(seeds)) as ex:
+        for hs, r in ex.map(one, seeds):
+            lines = r.stdout.strip().split("\n")
+            if r.returncode != 0 or len(lines) != len(labels):
+                chk.corr_break("c09-worker", None, None, f"rc={r.returncode} {r.stderr[-300:]}")
+                continue
+            for l, line in zip(labels, lines):
+                got = json.loads(line)
+                chk.hist["cross-process-orders"] += 1
+                if got.get("species") != descs[l]["order"]:
+                    chk.violation({"kind": "order-depends-on-process", "net": l if not l.startswith("random") else "random"},
+                                  f"network {l}: a second interpreter process (PYTHONHASHSEED={hs}) orders the species differently, so "
+                                  f"artefacts rendered by separate commands (index macros, enzo table, summary) disagree",
+                                  input={"network": l, "reactions": descs[l]["reactions"][:12], "required": descs[l]["required"]},
+                                  this_process=descs[l]["order"], other_process=got.get("species") or got)
+                    break
 
 
 def canon(name):
